@@ -288,3 +288,114 @@ def run(ctx):
                    "fun c => let '(ps, items, arr, out) := c in let r := render_capture ps items arr 1 in "
                    "oz_eqb (snd r) (snd out) && match snd out with Some _ => true | None => zlist_eqb (fst (fst r)) (fst out) end",
                    lambda i: rc_descr[i])
+
+
+# ---------------------------------------------------------------- sequences of requests through the real WSGI app
+
+APP_YAML = """
+services:
+  wms:
+    concurrent_layer_renderer: %(conc)d
+    on_source_errors: %(mode)s
+    md: {title: c15}
+layers:
+%(layers)s
+sources:
+%(sources)s
+globals:
+  http: {client_timeout: 5}
+"""
+
+
+def run_app_sequences(ctx):
+    """Every request must be composed of ITS OWN layer results: nothing of an earlier (possibly failed) request
+    may reach a later one (the pool and its queues belong to one map_each call).  Real WSGI app, direct WMS
+    layers, an upstream whose answer colour, delay and failure are chosen per layer."""
+    import io
+    import os
+    from PIL import Image
+    try:
+        from webtest import TestApp
+        from mapproxy.wsgiapp import make_wsgi_app
+        import mapproxy.client.http as mhttp
+    except Exception as e:  # noqa
+        ctx.problem('harness', 'cannot import the application for the request-sequence stream: %r' % (e,))
+        return
+    rng = ctx.rng
+    colours = {'red': (255, 0, 0), 'green': (0, 255, 0), 'blue': (0, 0, 255), 'yellow': (255, 255, 0),
+               'slow': (255, 0, 255), 'broken': None}
+    delays = {'red': 0.0, 'green': 0.01, 'blue': 0.03, 'yellow': 0.0, 'slow': 0.12, 'broken': 0.0}
+
+    def png(rgb):
+        b = io.BytesIO()
+        Image.new('RGB', (32, 32), rgb).save(b, 'png')
+        return b.getvalue()
+
+    class Resp(io.BytesIO):
+        def __init__(self, data):
+            io.BytesIO.__init__(self, data)
+            self.headers = {'Content-type': 'image/png'}
+            self.code = 200
+
+    def fake_open(self, url, data=None, method=None):
+        import re
+        import urllib.parse
+        q = urllib.parse.parse_qs(urllib.parse.urlparse(url).query)
+        name = (q.get('layers') or q.get('LAYERS') or ['?'])[0]
+        time.sleep(delays.get(name, 0))
+        if colours.get(name) is None:
+            raise mhttp.HTTPClientError('upstream down', response_code=500)
+        return Resp(png(colours[name]))
+
+    layers = '\n'.join("  - {name: %s, title: %s, sources: [%s_src]}" % (n, n, n) for n in colours)
+    sources = '\n'.join("  %s_src:\n    type: wms\n    req: {url: 'http://upstream.invalid/%s?', layers: %s, transparent: true}\n    supported_srs: ['EPSG:4326']\n    image: {transparent_color_tolerance: 0}"
+                        % (n, n, n) for n in colours)
+    old_open = mhttp.HTTPClient.open
+    mhttp.HTTPClient.open = fake_open
+    try:
+        for conc in (1, 2, 4):
+            d = ctx.tmpdir('c15app')
+            path = os.path.join(d, 'mapproxy.yaml')
+            with open(path, 'w') as f:
+                f.write(APP_YAML % {'conc': conc, 'mode': 'raise', 'layers': layers, 'sources': sources})
+            try:
+                app = TestApp(make_wsgi_app(path))
+            except Exception as e:  # noqa
+                ctx.problem('harness', 'request-sequence app could not be built: %r' % (e,))
+                return
+            seqs = [[['broken', 'slow'], ['blue', 'green']], [['slow', 'broken'], ['red', 'yellow'], ['green', 'blue']]]
+            for _ in range(ctx.n(3, 12)):
+                seqs.append([rng.sample(sorted(colours), rng.choice([2, 2, 3])) for _ in range(rng.choice([2, 3]))])
+            for seq in seqs:
+                obs = []
+                for req_layers in seq:
+                    try:
+                        r = app.get('/service?service=WMS&version=1.1.1&request=GetMap&layers=%s&styles=&srs=EPSG:4326'
+                                    '&bbox=0,0,10,10&width=32&height=32&format=image/png' % ','.join(req_layers),
+                                    expect_errors=True)
+                        if r.content_type == 'image/png':
+                            px = Image.open(io.BytesIO(r.body)).convert('RGB').getpixel((16, 16))
+                            obs.append(('image', px))
+                        else:
+                            obs.append(('error', r.status_int))
+                    except Exception as e:  # noqa
+                        obs.append(('raised', type(e).__name__))
+                    time.sleep(0.02)
+                time.sleep(0.15)   # let stragglers of the last request finish before the next sequence
+                ctx.case(('appseq', conc, tuple(map(tuple, seq))), True,
+                         {'stream': 'request sequence through the WSGI app', 'concurrent_layer_renderer': conc,
+                          'requests': seq, 'answers': obs})
+                ctx.count('app_sequence_conc=%d' % conc)
+                for req_layers, o in zip(seq, obs):
+                    rep = {'concurrent_layer_renderer': conc, 'request_sequence': seq, 'answers': obs}
+                    if 'broken' in req_layers:
+                        # reported as an error document or (on_source_errors: notify) as a message drawn into the image
+                        if o[0] == 'raised':
+                            ctx.fail('appseq,raised', 'GetMap LAYERS=%s raised %r' % (req_layers, o), rep)
+                    else:
+                        want = colours[req_layers[-1]]      # all layers are opaque: the top one shows
+                        if o != ('image', want):
+                            ctx.fail('appseq,foreign-or-lost-result', 'GetMap LAYERS=%s answered %r, expected the top layer %r '
+                                     '(a result of another request or layer was used, or one was lost)' % (req_layers, o, want), rep)
+    finally:
+        mhttp.HTTPClient.open = old_open
